@@ -55,11 +55,15 @@ def full_vocabulary():
     return v
 
 
-def document(classes, with_text, root=True, author=False, arrows_on_line=True, place="shape"):
+def document(classes, with_text, root=True, author=False, arrows_on_line=True, place="shape", form=None):
     """A document whose elements use exactly the given classes (place "tspan": the
     classes are spread over the author-written <tspan> children of a <text>)."""
     line_cls = [k for k in classes if k in ARROW_CLASSES] if arrows_on_line else []
     rect_cls = [k for k in classes if k not in line_cls]
+    root_cls = []
+    if place == "root" and root:
+        # every second class on the root <svg> itself
+        root_cls, rect_cls = rect_cls[0::2], rect_cls[1::2]
     body = ""
     if author:
         body += '<style>.mine { fill: red; } /* author */</style><defs><linearGradient id="lg"><stop offset="0" stop-color="red"/></linearGradient></defs>'
@@ -74,6 +78,12 @@ def document(classes, with_text, root=True, author=False, arrows_on_line=True, p
         body += f'<rect id="s" xy="0 0" wh="20 10"{c}{t}/>'
     if line_cls:
         body += f'<line id="l" xy1="0 20" xy2="20 20" class="{" ".join(line_cls)}"/>'
+    if form == "svg-in-g":
+        return f"<g><svg>{body}</svg></g>"
+    if form == "svg-after-shape":
+        return f'<rect wh="1"/><svg>{body}</svg>'
+    if place == "root" and root:
+        return f'<svg class="{" ".join(root_cls)}">{body}</svg>' if root_cls else f"<svg>{body}</svg>"
     return f"<svg>{body}</svg>" if root else body
 
 
